@@ -40,7 +40,7 @@ use crate::{discovery::secure_discovery::AuthenticationStatus, security::Endpoin
 
 // If remote participant does not specify lease duration, how long silence
 // until we pronounce it dead.
-const DEFAULT_PARTICIPANT_LEASE_DURATION: Duration = Duration::from_secs(60);
+const DEFAULT_PARTICIPANT_LEASE_DURATION: Duration = Duration::from_secs(100);
 
 // How much longer to wait than lease duration before pronouncing lost.
 const PARTICIPANT_LEASE_DURATION_TOLERANCE: Duration = Duration::from_secs(0);
